@@ -14,6 +14,7 @@ Rewrite rules, applied mechanically to the macro's transcriber body on every run
   R6  remaining `M[(A, B)]`, `M[A]` reads -> `M.get2(A, B)?` / `M.get1(A)?`
   R7  `E - 1` (E a parameter or an index read) -> `dec(E)?`     (0 - 1: panic in debug, wrap + failed bounds check in release)
   R8  `.clone()` on element values    -> dropped                (elements are modelled as u64: the kernels only clone them)
+  R9  `M.column_mut(C)[R]` / `M.row_mut(R)[C]` (a view subscripted once) -> `M[(R, C)]`
 The transcribed function returns `Some(())` when the real kernel returns normally and `None` when it panics.
 """
 import os, re, sys
@@ -81,7 +82,7 @@ def _rewrite_brackets(b, names):
         end = _match_paren(b, m.end() - 1)
         inner = b[m.end():end - 1].strip()
         two = inner.startswith("(") and _match_paren(inner, 0) == len(inner)
-        args = _split_top_commas(inner[1:-1]) if two else [inner]
+        args = [_rewrite_brackets(x, names) for x in (_split_top_commas(inner[1:-1]) if two else [inner])]
         rest = b[end:]
         ma = re.match(r"\s*(=|\+=|-=|\*=|/=)(?!=)\s*", rest)
         if ma:
@@ -109,7 +110,7 @@ def _rewrite_brackets(b, names):
             b = b[:m.start()] + rep + rest[k:]
             pos = m.start() + len(rep)
         else:
-            rep = "%s.get%d(%s)?" % (m.group(1), len(args), ", ".join(_rewrite_brackets(x, names) for x in args))
+            rep = "%s.get%d(%s)?" % (m.group(1), len(args), ", ".join(args))
             b = b[:m.start()] + rep + rest
             pos = m.start() + len(rep)
 
@@ -150,6 +151,22 @@ def transcribe(macro_text, params, scalars=()):
         aliases.append(mm.group(1))
         return "let %s = %s;" % (mm.group(1), mm.group(2)) if mm.group(1) != mm.group(2) else ""
     b = re.sub(r"let\s+(\w+)\s*=\s*&?\s*(%s)\s*;" % names, _alias, b)
+    # R9: `X.column_mut(C)[R]` -> `X[(R, C)]` ; `X.row_mut(R)[C]` -> `X[(R, C)]`   (a view indexed once is the element)
+    def _view(b):
+        while True:
+            m = re.search(r"\b(%s)\s*\.\s*(column_mut|row_mut|column|row)\(" % "|".join(list(params) + aliases), b)
+            if not m:
+                return b
+            e = _match_paren(b, m.end() - 1)
+            arg = b[m.end():e - 1].strip()
+            m2 = re.match(r"\s*\[", b[e:])
+            if not m2:
+                raise AnchorLost("matrix view used other than by a single subscript (outside the transcription subset)")
+            e2 = _match_paren(b, e + m2.end() - 1)
+            sub = b[e + m2.end():e2 - 1].strip()
+            rc = (sub, arg) if m.group(2).startswith("column") else (arg, sub)
+            b = b[:m.start()] + "%s[(%s, %s)]" % (m.group(1), rc[0], rc[1]) + b[e2:]
+    b = _view(b)
     # R8 (before index rewriting so `.index(..).clone()` is still recognised there: only bare element clones here)
     allnames = list(params) + aliases
     # R4
@@ -184,7 +201,17 @@ def inject(body, loops, keyword=r"\bfor\b"):
             elif c == "{" and depth == 0:
                 break
             i += 1
-        out = out[:i] + "\n" + head + "\n{" + ("\n" + first if first else "") + out[i + 1:]
+        hdr = out[m.start():i]
+        mi = re.search(r"ITER_END\((.*?)\)", head)
+        if mi:
+            # the loop bound is read from a value the loop mutates: name the ghost iterator and state its end as an invariant
+            mv = re.match(r"for\s+(\w+)\s+in\s+", hdr)
+            if not mv:
+                raise AnchorLost("ITER_END on a loop that is not `for x in a..b`")
+            it = "it_" + mv.group(1)
+            hdr = hdr[:mv.end()] + it + ": " + hdr[mv.end():]
+            head = head.replace(mi.group(0), "%s.iter.end == %s" % (it, mi.group(1)))
+        out = out[:m.start()] + hdr + "\n" + head + "\n{" + ("\n" + first if first else "") + out[i + 1:]
         if before:
             out = out[:m.start()] + before + "\n" + out[m.start():]
     return out
@@ -199,3 +226,66 @@ def kernel_fn(name, macro_text, params, sig, requires, ensures, invariants, scal
     req = ("\n  requires " + ",\n    ".join(requires) + ",") if requires else ""
     ens = ("\n  ensures " + ",\n    ".join(ensures) + ",") if ensures else ""
     return "fn %s(%s) -> (res: Option<()>)%s%s\n{\n%s\n%s\n  %s\n}\n" % (name, sig, req, ens, pre, body, post)
+
+
+# ---------------------------------------------------------------------------------------------------------------------
+# per-kernel obligations ("modes") shared by the C03 / C04 kernel tables
+def modes_of(k, atomic=False):
+    m = ["value", "reject"]
+    if k.get("mask", "addressed" in k):
+        m.append("masklen")
+    if atomic and k.get("loops") and k.get("atomic", True):
+        m.append("atomic")
+    return m
+
+
+def mode_fn(name, k, mt, mode, out="out"):
+    req = list(k["requires"])
+    valid = k["valid"]
+    if mode == "value":
+        req.append(valid)
+        ens = ["res.is_some()"] + list(k["value"])
+    elif mode == "reject":
+        # mask kernels: `addressed` = every selected position exists (the mask-length clause is the separate obligation .masklen)
+        ens = ["res.is_some() ==> " + k.get("addressed", valid)]
+    elif mode == "masklen":
+        ens = ["res.is_some() ==> " + k.get("masklen", valid)]
+    else:
+        ens = ["res.is_none() ==> final(%s).d@ == old(%s).d@" % (out, out)]
+    loops = []
+    for lp in k["loops"]:
+        head, first, before = (lp, "", "") if isinstance(lp, str) else (tuple(lp) + ("",))[:3]
+        if mode == "value":      # the precondition VALID is carried through the loops
+            head = head.replace("invariant ", "invariant %s, " % valid.replace("old(%s)" % out, out), 1)
+        loops.append((head, first, before))
+    return kernel_fn("k_%s_%s" % (name, mode), mt, k["params"], k["sig"], req, ens, loops, scalars=k.get("scalars", ()),
+                     post=(k.get("post_proof", "") + "\n  Some(())"))
+
+
+def add_units(plan, prop, table, path, what, atomic=False, out="out"):
+    """one Verus unit per kernel (a kernel whose shape drifted only loses its own obligations)"""
+    import vlib
+    text = vlib.read_repo(path)
+    model = model_text()
+    for name, k in table.items():
+        modes = modes_of(k, atomic)
+        obs = {m: plan.ob("%s.verus.%s.%s" % (prop, name, m), "verus", "proved", functions=["%s! (%s)" % (name, k.get("structs", ""))],
+                          what=what[m] % (name + "!", k.get("structs", ""))) for m in modes}
+        try:
+            mt = extract_macro(text, name)
+            items = [model] + [mode_fn(name, k, mt, m, out) for m in modes]
+        except Exception as e:
+            plan.anchor_errors.append(("%s.verus.%s.*" % (prop, name), "%s: %s" % (type(e).__name__, e)))
+            for o in obs.values():
+                o.status, o.detail = "undecided", "anchor lost: %s" % e
+            continue
+        items.append(vlib.verus_canary("canary_" + name, "x: u64", []))
+        u = vlib.VerusUnit("%s_%s" % (prop.lower(), name), vlib.verus_file(items), {"k_%s_%s" % (name, m): obs[m].name for m in modes}, ["canary_" + name])
+        u.rlimit = 150
+        plan.verus.append(u)
+    plan.dropped.append("(K) indexing kernels: macro bodies transcribed onto the Verus matrix model by the rewrite rules R0-R9 of /verif/units/vmat.py "
+                        "(metavariables -> parameters, raw-pointer derefs dropped, nalgebra index/assign -> bounds-checked get/set with `?` for the panic, "
+                        "`x - 1` -> dec(x)?, element clones dropped, elements modelled as u64)")
+    plan.assumptions.append("nalgebra's DMatrix/DVector/RowDVector behave as /verif/contracts/common/matmodel.rs (column-major storage, bounds-checked "
+                            "Index/IndexMut, resize_*_mut gives the requested shape); resize_* are external_body specs")
+    plan.assumptions.append("the kernels are generic in the element type and only clone elements: verified at element type u64; source and output do not alias")
